@@ -241,6 +241,10 @@ func (n *RaftNode) Restore(rc io.ReadCloser) error {
 		if err := n.db.LoadSnapshot(reader); err != nil {
 			return err
 		}
+
+		// the store has changed under the balloon: its in-memory
+		// hyper cache must reflect the loaded batches
+		n.balloon.RebuildCache()
 	}
 
 	n.loadState()
